@@ -25,6 +25,7 @@ type feedOpts struct {
 	onlyValidBases       bool
 	noDepthSites         bool
 	depthSitesLite       bool // a 16-document subset (for expensive per-input checks)
+	boundaryQ            int  // quick number of boundary base documents (default 4)
 	boundaries           bool // long documents corrupted at positions round 64, 128, ..., 65536 (chunked scanners)
 	alignment            bool // runs of every token class at every length 0..40 x special byte x tail length (word-at-a-time scanners)
 }
@@ -165,7 +166,11 @@ func (e *env) feed(o feedOpts, f inputFn) {
 	// 2c. chunk boundaries: long well-formed documents (70 KB) are corrupted / truncated at
 	// positions round 2^k (k = 6..16), where chunked or block-wise scanners change regime
 	if o.boundaries {
-		e.rapidStage("boundaries", "sweep", cfg.N(4, 160), func(rt *rapid.T) {
+		bq := o.boundaryQ
+		if bq == 0 {
+			bq = 4
+		}
+		e.rapidStage("boundaries", "sweep", cfg.N(bq, 40*bq), func(rt *rapid.T) {
 			p := gen.AnyProfile(rt)
 			doc := []byte{'['}
 			for len(doc) < 70000 {
